@@ -80,11 +80,14 @@ pub fn run(o: &mut Out, seed: u64, thorough: bool, replay: Option<Vec<String>>) 
                 child.conds = match shape { 0 => vec![c], 1 => vec![c, real], _ => vec![real, c] };
                 let mut par = parent0.clone();
                 par.conds.push(pair(at(&[51]), list(vec![at(&child.ph), int(child.amount)], nil())));
-                let t = pair(list(vec![
-                    list(vec![at(&par.parent), at(&par.ph), int(par.amount), list(par.conds.clone(), nil())], nil()),
-                    list(vec![at(&child.parent), at(&child.ph), int(child.amount), list(child.conds.clone(), nil())], nil())], nil()), nil());
-                let recs = vec![(par.coin_id(), 100u32, 1000u64), (child.coin_id(), 100u32, 1000u64)];
-                emit(o, flags, true, 200, 2000, &recs, &t);
+                // both listings: parent first, and child first (spends of a bundle are unordered)
+                for child_first in [false, true] {
+                    let pt = list(vec![at(&par.parent), at(&par.ph), int(par.amount), list(par.conds.clone(), nil())], nil());
+                    let ct = list(vec![at(&child.parent), at(&child.ph), int(child.amount), list(child.conds.clone(), nil())], nil());
+                    let t = pair(list(if child_first { vec![ct, pt] } else { vec![pt, ct] }, nil()), nil());
+                    let recs = vec![(par.coin_id(), 100u32, 1000u64), (child.coin_id(), 100u32, 1000u64)];
+                    emit(o, flags, true, 200, 2000, &recs, &t);
+                }
             }}}}
         }
     }
